@@ -62,7 +62,8 @@ type State struct {
 	allocs  []*Term
 	effects []string
 	sha1s   []shaApp
-	bencNext Value // value the next bencode.DecodeBytes yields (registered by vBencode)
+	bencNext []bencReg // values registered by vBencode, consumed by the decoder stubs by type
+	lastEnc  Value
 	primary int  // object id of the first stream created on this path (vStreamPos observes it)
 	stubbed bool // the path went through an adversarial stub (cut, bencode adversary, nondet error): no native counterpart
 }
@@ -143,7 +144,7 @@ func (ex *Exec) namedVar(name string, s Sort) *Term {
 }
 
 func (st *State) clone() *State {
-	n := &State{heap: make(map[int]*Obj, len(st.heap)), consumed: st.consumed, imprecise: st.imprecise, stubbed: st.stubbed, primary: st.primary, bencNext: st.bencNext}
+	n := &State{heap: make(map[int]*Obj, len(st.heap)), consumed: st.consumed, imprecise: st.imprecise, stubbed: st.stubbed, primary: st.primary, bencNext: append([]bencReg(nil), st.bencNext...), lastEnc: st.lastEnc}
 	for k, v := range st.heap {
 		n.heap[k] = v
 	}
@@ -740,6 +741,22 @@ func (ex *Exec) jump(st *State, fr *Frame, to *ssa.BasicBlock) bool {
 	return true
 }
 
+type bencReg struct {
+	T types.Type
+	V Value
+}
+
+// takeBenc removes and returns the first registered value whose type is the target's.
+func (st *State) takeBenc(t types.Type) (Value, bool) {
+	for i, r := range st.bencNext {
+		if types.Identical(r.T, t) {
+			st.bencNext = append(append([]bencReg(nil), st.bencNext[:i]...), st.bencNext[i+1:]...)
+			return r.V, true
+		}
+	}
+	return nil, false
+}
+
 type mergeRet struct {
 	st  *State
 	val Value
@@ -1242,7 +1259,13 @@ func (ex *Exec) step(st *State, fr *Frame, instr ssa.Instruction) bool {
 		st.heap[ch.Obj] = &Obj{Val: cs}
 		ex.wake(st)
 	case *ssa.Select:
-		if len(st.threads) > 1 {
+		if len(st.threads) > 1 || ex.selectReady(st, in) != 1 {
+			if len(st.threads) == 1 && ex.selectReady(st, in) == 0 {
+				if in.Blocking {
+					ex.finish(st, "blocked", "select with no ready case", pos)
+					return false
+				}
+			}
 			return ex.selectFork(st, fr, in)
 		}
 		chosen := -1
@@ -1353,6 +1376,82 @@ func (ex *Exec) mapFind(st *State, c []Value, key Value, cont func(s *State, idx
 		ex.work = append(ex.work, o)
 	}
 	return false
+}
+
+// needConcrete makes the symbolic parts of the given SSA operands (integer terms, or the
+// offset/length/capacity of slices) concrete by a case split over 0..bound and re-executes
+// the current instruction in every feasible case. Returns true if a split was made (the
+// caller must then return false: st is abandoned).
+func (ex *Exec) needConcrete(st *State, operands []ssa.Value, bound int) bool {
+	for _, op := range operands {
+		if op == nil {
+			continue
+		}
+		if _, isConst := op.(*ssa.Const); isConst {
+			continue
+		}
+		v, ok := st.top().env[op]
+		if !ok {
+			continue
+		}
+		var sym *Term
+		var rebuild func(c *Term) Value
+		switch x := v.(type) {
+		case *Term:
+			if !x.IsConst() && x.S.K == SBV {
+				sym = x
+				rebuild = func(c *Term) Value { return c }
+			}
+		case SliceV:
+			switch {
+			case !x.Off.IsConst():
+				sym = x.Off
+				rebuild = func(c *Term) Value { return SliceV{x.Obj, c, x.Len, x.Cap} }
+			case !x.Len.IsConst():
+				sym = x.Len
+				rebuild = func(c *Term) Value { return SliceV{x.Obj, x.Off, c, x.Cap} }
+			case !x.Cap.IsConst():
+				sym = x.Cap
+				rebuild = func(c *Term) Value { return SliceV{x.Obj, x.Off, x.Len, c} }
+			}
+		}
+		if sym == nil {
+			continue
+		}
+		for k := 0; k <= bound; k++ {
+			cv := Const(sym.S.W, uint64(k))
+			c := Eq(sym, cv)
+			if c.IsFalse() || !ex.feasible(st, c) {
+				continue
+			}
+			o := st.clone()
+			o.pc = append(o.pc, c)
+			o.top().env[op] = rebuild(cv)
+			o.top().ip--
+			ex.work = append(ex.work, o)
+		}
+		// values beyond the bound are reported, not silently dropped
+		beyond := Ult(Const(sym.S.W, uint64(bound)), sym)
+		if ex.feasible(st, beyond) {
+			o := st.clone()
+			o.pc = append(o.pc, beyond)
+			ex.finish(o, "unwind", fmt.Sprintf("container size beyond the concretisation bound %d", bound), token.NoPos)
+		}
+		return true
+	}
+	return false
+}
+
+func cellsBound(st *State, vals ...Value) int {
+	b := 4
+	for _, v := range vals {
+		if s, ok := v.(SliceV); ok && s.Obj != 0 {
+			if c, ok := st.heap[s.Obj].Val.(CellsV); ok && len(c.C) > b {
+				b = len(c.C)
+			}
+		}
+	}
+	return b + 1
 }
 
 // splitIndex continues the execution once for every feasible concrete value k in [0,n)
@@ -1949,7 +2048,29 @@ func (ex *Exec) builtin(st *State, b *ssa.Builtin, args []Value, in *ssa.Call, p
 				da, ok1 := ex.sliceArr(st, dst)
 				sa, ok2 := ex.sliceArr(st, src)
 				if !ok1 || !ok2 {
-					panic("copy of non-scalar slices")
+					dc, okd := st.heap[dst.Obj].Val.(CellsV)
+					sc, oks := st.heap[src.Obj].Val.(CellsV)
+					if !okd || !oks {
+						panic("copy of non-scalar slices (lazy)")
+					}
+					if !dst.Off.IsConst() || !dst.Len.IsConst() || !src.Off.IsConst() || !src.Len.IsConst() {
+						if in != nil && ex.needConcrete(st, []ssa.Value{in.Call.Args[0], in.Call.Args[1]}, cellsBound(st, dst, src)) {
+							return false
+						}
+						panic("symbolic copy of non-scalar slices")
+					}
+					k := dst.Len.Val
+					if src.Len.Val < k {
+						k = src.Len.Val
+					}
+					nc := append([]Value(nil), dc.C...)
+					tmp := append([]Value(nil), sc.C[src.Off.Val:src.Off.Val+k]...)
+					copy(nc[dst.Off.Val:], tmp)
+					st.heap[dst.Obj] = &Obj{Val: CellsV{nc}}
+					if in != nil {
+						fr.env[in] = Const(64, k)
+					}
+					return true
 				}
 				if st.heap[dst.Obj].Freed || st.heap[src.Obj].Freed {
 					ex.finish(st, "panic", "use after free (copy)", pos)
@@ -1997,6 +2118,12 @@ func (ex *Exec) builtin(st *State, b *ssa.Builtin, args []Value, in *ssa.Call, p
 		if s.Obj != 0 {
 			switch a := st.heap[s.Obj].Val.(type) {
 			case CellsV:
+				if !s.Off.IsConst() || !s.Len.IsConst() {
+					if in != nil && ex.needConcrete(st, []ssa.Value{in.Call.Args[0]}, cellsBound(st, s)) {
+						return false
+					}
+					panic("symbolic clear of non-scalar slice")
+				}
 				c := append([]Value(nil), a.C...)
 				et := b.Type().(*types.Signature).Params().At(0).Type().Underlying().(*types.Slice).Elem()
 				for i := s.Off.Val; i < s.Off.Val+s.Len.Val; i++ {
@@ -2048,7 +2175,10 @@ func (ex *Exec) builtin(st *State, b *ssa.Builtin, args []Value, in *ssa.Call, p
 			return false
 		}
 		// cells: concrete
-		if !s.Len.IsConst() || !t.Len.IsConst() || !s.Off.IsConst() || !t.Off.IsConst() {
+		if !s.Len.IsConst() || !t.Len.IsConst() || !s.Off.IsConst() || !t.Off.IsConst() || (s.Obj != 0 && !s.Cap.IsConst()) {
+			if in != nil && ex.needConcrete(st, []ssa.Value{in.Call.Args[0], in.Call.Args[1]}, cellsBound(st, s, t)) {
+				return false
+			}
 			panic("symbolic append of non-scalar slice")
 		}
 		if s.Obj != 0 && s.Cap.IsConst() && s.Len.Val+t.Len.Val <= s.Cap.Val {
@@ -2304,6 +2434,26 @@ func (ex *Exec) runInits(st *State, pkg *ssa.Package) {
 // prototype: unbuffered channels are modelled with capacity 1 ("handed over"), so this is never needed.
 func (ex *Exec) rendezvous(st *State, t int, obj int) bool { return false }
 
+// selectReady counts the communication cases of a select that can proceed now.
+func (ex *Exec) selectReady(st *State, in *ssa.Select) int {
+	n := 0
+	for _, s := range in.States {
+		ch := ex.get(st, s.Chan).(ChanV)
+		if ch.Obj == 0 {
+			continue
+		}
+		cs := st.heap[ch.Obj].Val.(ChanState)
+		if s.Dir == types.SendOnly {
+			if cs.Closed || len(cs.Q) < cs.Cap || cs.Env {
+				n++
+			}
+		} else if len(cs.Q) > 0 || cs.Closed || cs.Env {
+			n++
+		}
+	}
+	return n
+}
+
 func (ex *Exec) selectFork(st *State, fr *Frame, in *ssa.Select) bool {
 	pos := in.Pos()
 	type choice struct{ idx int }
@@ -2323,7 +2473,18 @@ func (ex *Exec) selectFork(st *State, fr *Frame, in *ssa.Select) bool {
 		}
 	}
 	if !in.Blocking {
-		ready = append(ready, -1)
+		// default is taken only when no communication can proceed; an environment channel
+		// "may or may not" be ready, so default stays possible next to it
+		sure := false
+		for _, i := range ready {
+			ch := ex.get(st, in.States[i].Chan).(ChanV)
+			if !st.heap[ch.Obj].Val.(ChanState).Env {
+				sure = true
+			}
+		}
+		if !sure {
+			ready = append(ready, -1)
+		}
 	}
 	if len(ready) == 0 {
 		panic("select granted with no ready case")
